@@ -31,6 +31,11 @@ Theorem C03_refuted_dict_items :   (* {'a': 1, 'b': 2.0} : tranp dict<str, int>,
   infer' (Gx []) e = Some (TDict (TB BStr) (TB BInt)) /\ dyn (Rx []) e = [RDict [RB BStr; RB BStr] [RB BInt; RB BFloat]]
   /\ has_type (RDict [RB BStr; RB BStr] [RB BInt; RB BFloat]) (TDict (TB BStr) (TB BInt)) = false.
 Proof. vm_compute. auto. Qed.
+Theorem C03_refuted_list_same_class :   (* [[1], ['a']] : tranp list<list<str>> (one entry per class of element type, the last one wins), a list of int at run time *)
+  let e := EList [EList [ELit BInt]; EList [ELit BStr]] in
+  infer' (Gx []) e = Some (TList (TList (TB BStr))) /\ dyn (Rx []) e = [RList [RList [RB BInt]; RList [RB BStr]]]
+  /\ has_type (RList [RList [RB BInt]; RList [RB BStr]]) (TList (TList (TB BStr))) = false.
+Proof. vm_compute. auto. Qed.
 Theorem C03_soundness_refuted : ~ C03_soundness_full.
 Proof.
   intros H. destruct C03_refuted_or_on_int as [He [Hi [Hd Hn]]].
@@ -73,3 +78,4 @@ Print Assumptions C03_soundness_partial.
 Print Assumptions C03_soundness_refuted.
 Print Assumptions C03_total_binop_partial.
 Print Assumptions C03_total_refuted.
+Print Assumptions C03_refuted_list_same_class.
